@@ -156,7 +156,8 @@ SeqFamilies ==
 ProofFamilies ==
   \/ Give(A0, out, prf, par)                                                       \* honest
   \/ Kind = "pair" /\ Give(Adv("honestlib", 0, 0), out, prf, par)                 \* shuffle.Shuffle with the library's own permutation
-  \/ \E i \in 1..Len(Items), e \in {1, 2} : Give(Adv("mutate", i, e), out, "mutated", par)     \* item i, first / last element
+  \* item i: first (1) / last (2) element altered; 3: bit 7 of the last byte of its last element flipped
+  \/ \E i \in 1..Len(Items), e \in {1, 2, 3} : Give(Adv("mutate", i, e), out, "mutated", par)
   \/ \E m \in 0..(Msgs - 1) : Give(Adv("trunc", m, 0), out, "truncated", par)
   \* byte-level truncation of the tail: the last a bytes cut off (a = 1, 31), and "trunczero": an honest proof whose
   \* trailing bytes are 0x00 (fresh prover randomness until the last scalar encodes so) cut by exactly those bytes
